@@ -13,6 +13,8 @@ Decided:
      document, no further send is reachable;
   R6 the re-sent request is re-built by the data builder with the nonce refreshed from the error response (every cycle
      send -> send crosses update_nonce and the builder call) — shared with C04.
+  W1: what the client can read of a problem document and of polled objects (member names, unknown members tolerated), from the
+  derived Deserialize impls (props/wire_shape.py).
 """
 import json
 import os
@@ -25,7 +27,8 @@ from .http_common import GET, POST, SEND, bounded_loop_rule, fresh_nonce_rule, p
 
 LEVEL = "other"
 TECHNIQUE = ("table extraction by abstract interpretation of the classification functions over all enum variants / oracle "
-             "strings + loop-bound and must-pass-through rules on the retry and polling loops' CFG")
+             "strings + loop-bound and must-pass-through rules on the retry and polling loops' CFG"
+             '; derived-Deserialize shape tables')
 LEVEL_TEXT = ("Decides for every error type (whole table, not a sample) how it is classified, and for every path of "
               "http::post/get and of the polling helpers that transmissions are bounded by constant range loops, that success "
               "is returned only on a 2xx status and that nothing is re-sent after a non-recoverable answer. These clauses "
